@@ -99,12 +99,33 @@ def gen_cases(tier, seed):
         add(3, 3, ENT3, 243, SCALES, both)
         add(3, 3, ENT4, 1024, [1.0], ["float64"])
         add(3, 3, ENT5, 3125, [1.0], ["float64"], mode="lite")
+    # structural sub-family (added after a seeded change was missed by the quick tier): the first 160 well-posed 3x3 matrices
+    # with entries {-1,0,1,2}, in lexicographic order, whose IMTL-G weights have a NEGATIVE sum before normalisation
+    # (none exists with entries {-1,0,1}); the thorough tier contains all 2 358 of them anyway.
+    neg = _negative_sum_indices(160)
+    for lo in range(0, len(neg), 20):
+        cases.append(dict(kind="intlist", m=3, n=3, ent=list(ENT4), idx=neg[lo:lo + 20], scales=[1.0], dtypes=["float64"], mode="full",
+                          extra32=True))
     for n in range(1, 6):
         for m in range(1, n + 1):
             cases.append(dict(kind="dense", m=m, n=n, seed=seed, scales=list(SCALES), dtypes=both, mode="full", extra32=False))
     for m in range(1, 6):
         cases.append(dict(kind="zero", m=m, dtypes=both))
     return cases
+
+
+def _negative_sum_indices(count):
+    out, i, N = [], 0, len(ENT4) ** 9
+    while len(out) < count and i < N:
+        J = A.ternary_index(3, 3, i, entries=tuple(ENT4))
+        sv = np.linalg.svd(J, compute_uv=False)
+        if sv[-1] > 1e-9 and sv[0] / sv[-1] <= 50:
+            d = np.linalg.norm(J, axis=1)
+            v = np.linalg.pinv(J @ J.T) @ d
+            if v.sum() * d.max() < -1e-3:
+                out.append(i)
+        i += 1
+    return out
 
 
 # ------------------------------------------------------------------------------------------------ real code, cached
@@ -335,6 +356,10 @@ def run_case(case):
         ent = tuple(case["ent"])
         mats = [A.ternary_index(m, n, i, entries=ent) for i in range(case["lo"], case["hi"])]
         tag = f"{m}x{n}"
+    elif case["kind"] == "intlist":
+        ent = tuple(case["ent"])
+        mats = [A.ternary_index(m, n, i, entries=ent) for i in case["idx"]]
+        tag = f"{m}x{n}neg"
     else:
         mats = A.dense(case["seed"], m, n, 8)
         if len(mats) != 8:
